@@ -40,6 +40,19 @@ CHECKS = {
          "Broker: seeded histories of retained publishes/clears (also through topic aliases) followed by subscriptions of every shape (filter, QoS, Retain Handling 0/1/2, RAP, v3/v5, shared, re-subscription); "
          "TLC validates every recorded event: which retained messages are replayed, once each, at min(QoS), with RETAIN=1, and RETAIN on live forwarding only under RAP.",
     note="One open known finding (replay RETAIN follows RAP) is modelled as a named deviation: traces are validated with it switched on (so everything else is still checked) and strictly to report it. Bounded alphabets/scenario sizes."),
+ "C03": dict(
+    level="model_checking", ref="DESIGN.md §4 C03, App. B.2",
+    technique="TLC exhaustive Limiter.tla + transition-coverage replay into the real packet-id limiter; trace validation of a scripted subscriber (acks, cuts, Receive Maximum) against Broker.tla inflight rules",
+    text="Limiter.tla: every transition (incl. the 65535 wrap-around, reached through a blockers history) replayed on the real limiter: ids fresh, non-zero, window. Flow: seeded scripts of one subscriber that acknowledges promptly/late/"
+         "out of order/never/with error codes and is cut and resumed with varying Receive Maximum under max_inflight 1/2/3/100; TLC validates every event against Broker.tla: packet ids of unacknowledged deliveries non-zero and distinct (IdsDistinct), "
+         "window <= min(Receive Maximum, max_inflight) (WindowOK), first transmission DUP=0, retransmissions with the same id and DUP=1 (or PUBREL) first and in original order after every resume, and everything is delivered once acknowledged.",
+    note="The client only acknowledges what it has seen on the current connection. Blocked sessions are excused at barriers (lenient window). Bounded scripts; seeds."),
+ "C04": dict(
+    level="model_checking", ref="DESIGN.md §4 C04",
+    technique="TLC model check + behaviour enumeration of Inbound.tla; every enumerated history replayed on a real broker and validated by TLC against Broker.tla",
+    text="Inbound.tla: TLC checks ExactlyOnce / AckPairing on all histories over PUBLISH q2(id,dup) / PUBREL(id) / PUBLISH q1 / reconnect(clean) up to the depth bound and prints each history; the histories are replayed (explicit packet ids, "
+         "retransmissions with and without DUP, id reuse, reconnects with Clean Start 0/1, v3.1.1 and v5) with an independent QoS2 subscriber; TLC validates that each logical message is forwarded exactly once and each packet gets its ack with the same id.",
+    note="Depth 4 (quick: seeded sample of 500 of 10 000 histories) / depth 5 (thorough: all). Two packet ids."),
 }
 
 NOT_YET = {
